@@ -423,6 +423,26 @@ func ruleReaderDiscipline(c *core.Ctx, d *decoderSet, rule string, only func(*ss
 						if f.Name() == "Len" || f.Name() == "String" {
 							continue
 						}
+						// a *bytes.Buffer parameter used as the destination of the basic writers is
+						// an output buffer, not an input reader
+						if _, isIface := root.Type().Underlying().(*types.Interface); !isIface && f.Pkg != nil && f.Pkg.Pkg.Path() == core.Module+"/type/basic" && strings.HasPrefix(f.Name(), "Write") {
+							continue
+						}
+						// a function of the repository that is handed the reader and never
+						// touches it (the constructor of the void value)
+						if inRepo(f) && len(f.Blocks) > 0 {
+							unused := true
+							for i, a := range x.Common().Args {
+								if core.Canon(a) == core.Canon(root) || (i < len(f.Params) && core.RootOf(a) == root) {
+									if i < len(f.Params) && len(core.Referrers(f.Params[i])) > 0 {
+										unused = false
+									}
+								}
+							}
+							if unused {
+								continue
+							}
+						}
 					}
 					bad = "the input reader is handed to " + core.CalleeName(x) + " (at " + c.Pos(u.Pos()) + "), which is not one of the decoders: consumers such as io.Copy, io.LimitReader, bufio or Buffer.Next do not report a short input"
 				case *ssa.TypeAssert:
